@@ -153,7 +153,12 @@ def bodies_touching(facts, field):
 def who(ctx):
     ck, facts, R = ctx.check, ctx.facts, ctx.roles
     gated = {R.mem_read_bytes, R.mem_write_bytes, R.decoders()[2]}
-    lifecycle = {facts.method("axecutor::Axecutor", n)["path"] for n in ("mem_init_area_named", "mem_resize_section")}
+    from . import C10
+    lifecycle = {facts.method("axecutor::Axecutor", "mem_resize_section")["path"]} | set(C10.area_pushers(facts))
+    for k_, b_ in facts.bodies.items():   # and whatever builds a MemoryArea value
+        if not b_["glue"] and any(st[0] == "a" and st[2][0] == "agg" and st[2][1][0] == "adt" and st[2][1][1] == AREA_ADT
+                                  for blk in b_["blocks"] for st in blk["s"]):
+            lifecycle.add(k_.split("::{closure")[0])
     protf = facts.method("axecutor::Axecutor", "mem_prot")["path"]
     renderer = {k for k in facts.bodies if facts.bodies[k].get("impl_self") == AREA_ADT and not facts.bodies[k]["glue"]}
 
@@ -251,55 +256,82 @@ def init(ctx):
     if len(fb) != 1:
         ck.violation("C09.init", "api=from_binary", "anchor matches %d bodies" % len(fb))
     else:
-        loader_prot(ctx, facts.bodies[fb[0]])
+        # the loader: decided on the interpreted paths of from_binary (shared with C15): every loaded segment gets
+        # mem_prot(p_vaddr, permutation of its own p_flags), and no other program header changes it afterwards
+        from . import C15
+
+        class _Fwd:
+            def __init__(self, ck_):
+                self.ck, self.cov, self.samples, self.assumptions, self.violations = ck_, {}, [], ck_.assumptions, ck_.violations
+
+            def ok(self, rule, instance=None, n=1):
+                if rule in ("C15.perm", "C15.others"):
+                    self.ck.ok("C09.init", "api=from_binary,%s" % rule.split(".")[1], n)
+
+            def violation(self, rule, instance, observed, **kw):
+                if rule in ("C15.perm", "C15.others"):
+                    self.ck.violation("C09.init", "api=from_binary,%s" % rule.split(".")[1], observed, **kw)
+
+            def undecided_(self, *a, **k): pass
+            def floor(self, *a, **k): pass
+            def sample(self, *a, **k): pass
+        sub = type("Sub", (), {})()
+        sub.__dict__.update(ctx.__dict__)
+        sub.check = _Fwd(ck)
+        C15.run(sub)
 
 
 def must_call_prot(ctx, body, inst, want_mask):
-    """every path from an area creation to a success return passes mem_prot(same start, const mask)"""
+    """every success path of the constructor leaves the code area (the area it adds at the code start address) with
+    exactly the wanted permission mask -- whether it is created with it or re-protected afterwards. The constructor is
+    interpreted down to the `push` onto the area list (the pushed MemoryArea value carries its initial mask) with
+    mem_prot as a primitive."""
     ck, facts = ctx.check, ctx.facts
     protp = facts.method("axecutor::Axecutor", "mem_prot")["path"]
-    creators = {facts.method("axecutor::Axecutor", n)["path"] for n in
-                ("mem_init_area", "mem_init_area_named", "mem_init_zero", "mem_init_zero_named")}
+    mp = M.MemPrims(facts)
+    adt = facts.adts[AREA_ADT]
+    fnames = [f_["name"] for f_ in adt["variants"][0]["fields"]]
 
     def icpt(I, path, frame, t, name, args):
-        if name in creators:
-            path.events.append(("create", args[1]))
-            p2 = path.copy()
-            return [(A.OK(A.UNIT), path), (A.ERR(("e",)), p2)]
+        short = name.rsplit("::", 1)[1].split("::<")[0] if "::" in name else name
+        if short == "push" and "MemoryArea" in " ".join(t["f"].get("gargs", [])) and len(args) == 2:
+            path.events.append(("area_pushed", args[1]))
+            return [(A.UNIT, path)]
         if name == protp:
             path.events.append(("prot", args[1], args[2]))
             p2 = path.copy()
             return [(A.OK(A.UNIT), path), (A.ERR(("e",)), p2)]
-        if name in facts.bodies and name not in (body["path"],):
-            # keep other crate functions opaque: only the constructor's own shape matters here
-            if facts.bodies[name]["kind"] != "Closure" and not name.endswith("::empty"):
-                return None
-        return None
-    I = A.Interp(facts, intercept=icpt, may_inline=lambda n, b: b["kind"] == "Closure")
+        return mp.intercept(I, path, frame, t, name, args)
+    I = A.Interp(facts, intercept=icpt, max_paths=20000)
     outs = list(I.run(body, [("codeslice",), A.W(("code_start",), 64), A.W(("initial_rip",), 64)], A.Path()))
     oks = [o for o in outs if o.kind == "return" and not is_err(o)]
     if not oks:
         ck.violation("C09.init", inst, "no success path found", witness=[repr(o) for o in outs][:4])
         return
     bad = None
+    START = A.W(("code_start",), 64)
     for o in oks:
-        created = [e for e in o.path.events if e[0] == "create"]
-        prots = [e for e in o.path.events if e[0] == "prot"]
-        for c in created:
-            m = [p for p in prots if p[1] == c[1]]
-            if not m:
-                bad = bad or "area created at %s without a following mem_prot" % A.show(c[1])
-            else:
-                mv = I.decide(o.path, m[-1][2])
-                if mv != want_mask:
-                    bad = bad or "mem_prot mask %s, expected %d (READ|EXEC)" % (mv, want_mask)
-        if not created:
-            bad = bad or "success path creates no code area"
+        pushed = [e[1] for e in o.path.events if e[0] == "area_pushed"]
+        code = []
+        for a_ in pushed:
+            if a_[0] == "agg" and len(a_[3]) == len(fnames):
+                fld = dict(zip(fnames, a_[3]))
+                if U.strip(fld["start"]) == U.strip(START):
+                    code.append(fld)
+        if not code:
+            bad = bad or "a success path adds no area at the code start address"
+            continue
+        mask = I.decide(o.path, code[-1]["access"])
+        for e in o.path.events:
+            if e[0] == "prot" and U.strip(e[1]) == U.strip(START):
+                mask = I.decide(o.path, e[2])
+        if mask != want_mask:
+            bad = bad or "the code area ends up with permission mask %s, expected %d (READ|EXEC)" % (mask, want_mask)
     if bad:
         ck.violation("C09.init", inst, bad, where="%s:%d" % (body["span"][0], body["span"][1]),
                      what="constructor leaves the code area writable / not executable")
     else:
-        ck.ok("C09.init", inst)
+        ck.ok("C09.init", inst, len(oks))
 
 
 def loader_prot(ctx, body):
